@@ -414,6 +414,133 @@ def r1_complementary(chk, prog):
                   g.loc())
 
 
+# --------------------------------------------------------------------------- R7 / R8
+
+def scan_spec(f):
+    """std::string semantics of a searching observer as a c11_scan.Spec (None: not specified)"""
+    from .c11_scan import Spec
+    ks = tuple(kind_of(p) for p in f.params)
+    v = [sym(p['name']) for p in f.params]
+    n = sym('this.mLength')
+    short = f.short
+
+    def needle(i):
+        r, m = source(f.params[i])
+        return r, m
+
+    if short in ('find', 'rfind') and ks and ks[0] in ('fs', 'string', 'cstr'):
+        r, m = needle(0)
+        dom = [ge(m, 1)]
+        pos = v[1] if len(v) > 1 else None
+        if ks == ('cstr', 'n', 'n'):
+            dom = [ge(v[2], 1), le(v[2], m)]
+            m = v[2]
+        elif ks not in (('fs', 'n'), ('string', 'n'), ('cstr', 'n')):
+            return None
+        if short == 'find':
+            return Spec('first', lambda j: [ge(j, pos), le(j + m, n), ge(j, 0)], ('substr', r, m), 'index', dom)
+        return Spec('last', lambda j: [le(j, pos), le(j + m, n), ge(j, 0)], ('substr', r, m), 'index', dom)
+    if short in ('find', 'find_first_of') and ks == ('ch', 'n'):
+        return Spec('first', lambda j: [ge(j, v[1]), lt(j, n), ge(j, 0)], ('char_eq', v[0]), 'index', [])
+    if short in ('rfind', 'find_last_of') and ks == ('ch', 'n'):
+        return Spec('last', lambda j: [le(j, v[1]), lt(j, n), ge(j, 0)], ('char_eq', v[0]), 'index', [])
+    if short == 'find_first_not_of' and ks == ('ch', 'n'):
+        return Spec('first', lambda j: [ge(j, v[1]), lt(j, n), ge(j, 0)], ('char_ne', v[0]), 'index', [])
+    if short == 'find_last_not_of' and ks == ('ch', 'n'):
+        return Spec('last', lambda j: [le(j, v[1]), lt(j, n), ge(j, 0)], ('char_ne', v[0]), 'index', [])
+    if short in ('find_first_of', 'find_first_not_of', 'find_last_of', 'find_last_not_of') and \
+            ks in (('fs', 'n'), ('string', 'n'), ('cstr', 'n')):
+        r, m = needle(0)
+        test = ('in_set', r) if short.endswith('_of') and 'not' not in short else ('not_in_set', r)
+        if 'first' in short:
+            return Spec('first', lambda j: [ge(j, v[1]), lt(j, n), ge(j, 0)], test, 'index', [ge(m, 1)])
+        return Spec('last', lambda j: [le(j, v[1]), lt(j, n), ge(j, 0)], test, 'index', [ge(m, 1)])
+    if short == 'contains':
+        if ks in (('fs',), ('string',), ('cstr',)):
+            r, m = needle(0)
+            return Spec('first', lambda j: [ge(j, 0), le(j + m, n)], ('substr', r, m), 'bool', [ge(m, 1)])
+        if ks == ('ch',):
+            return Spec('first', lambda j: [ge(j, 0), lt(j, n)], ('char_eq', v[0]), 'bool', [])
+    if short in ('starts_with', 'ends_with'):
+        if ks in (('fs',), ('string',), ('cstr',)):
+            r, m = needle(0)
+            t0 = lin(0) if short == 'starts_with' else n - m
+            return Spec('at', lambda j: [le(m, n), ge(j, 0)], ('substr', r, m), 'bool', [ge(m, 1)], at=t0)
+        if ks == ('ch',):
+            t0 = lin(0) if short == 'starts_with' else n - 1
+            return Spec('at', lambda j: [ge(n, 1), ge(j, 0)], ('char_eq', v[0]), 'bool', [], at=t0)
+    return None
+
+
+def compare_spec(f):
+    """( a_off, a_len variants ...) of compare(): list of (domain, a_off, a_len, b_region, b_off, b_len)"""
+    ks = tuple(kind_of(p) for p in f.params)
+    v = [sym(p['name']) for p in f.params]
+    n = sym('this.mLength')
+    if f.short != 'compare':
+        return None
+
+    def sub(total, pos, count):
+        """substr( pos, count) of a text of length total, domain pos < total: [(assumptions, length)]"""
+        return [([lt(pos, total), le(count, total - pos)], count), ([lt(pos, total), ge(count, total - pos)], total - pos)]
+    if ks in (('fs',), ('string',), ('cstr',)):
+        r, m = source(f.params[0])
+        return [([], lin(0), n, r, lin(0), m)]
+    if ks in (('n', 'n', 'fs'), ('n', 'n', 'string'), ('n', 'n', 'cstr')):
+        r, m = source(f.params[2])
+        return [(a, v[0], la, r, lin(0), m) for a, la in sub(n, v[0], v[1])]
+    if ks in (('n', 'n', 'fs', 'n', 'n'), ('n', 'n', 'string', 'n', 'n')):
+        r, m = source(f.params[2])
+        return [(a1 + a2, v[0], la, r, v[3], lb) for a1, la in sub(n, v[0], v[1]) for a2, lb in sub(m, v[3], v[4])]
+    if ks == ('n', 'n', 'cstr', 'n'):
+        r, m = source(f.params[2])
+        return [(a1 + a2 + [ge(m, 1)], v[0], la, r, lin(0), lb) for a1, la in sub(n, v[0], v[1])
+                for a2, lb in sub(m, lin(0), v[3])]
+    return None
+
+
+def r7_observers(chk, prog, L):
+    from .c11_scan import Scan, check_compare
+    eng = make_engine(prog)
+    eng.cfg['track_reads'] = True
+    eng.cfg['track_content'] = False
+    members = [f for f in c10.members_to_analyse(prog, L) if f.d.get('const')]
+    n_scan = n_cmp = 0
+    unspecified = []
+    for f in sorted(members, key=lambda x: (x.line, x.key)):
+        tag = '%s, L=%d' % (c10.sig(f), L)
+        sp = scan_spec(f)
+        if sp is not None:
+            # searching backwards: the documented start position is a position of the text or 'not set' (npos)
+            doms = [sp.domain]
+            if sp.order == 'last':
+                pos = sym(f.params[1]['name'])
+                doms = [sp.domain + [ge(pos, NPOS)], sp.domain + [le(pos, sym('this.mLength') - 1)]]
+            loops = 0
+            for di, dom in enumerate(doms):
+                sp.domain = dom
+                sc = Scan(chk, eng, f, sp, tag + (', start %s' % ('not set', 'inside the text')[di]
+                                                  if len(doms) > 1 else ''))
+                sc.run()
+                loops += sc.n_loops
+            chk.check(sp.order == 'at' or loops >= 1, 'R7', f.name, 'the search is a scan over candidate '
+                      'positions [%s]' % tag, f.loc(), 'no scan loop found')
+            n_scan += 1
+            continue
+        cs = compare_spec(f)
+        if cs is not None:
+            for i, (dom, a_off, a_len, b_region, b_off, b_len) in enumerate(cs):
+                check_compare(chk, eng, f, '%s, case %d' % (tag, i + 1), a_off, a_len, b_region, b_off, b_len, dom)
+            n_cmp += 1
+            continue
+        if f.short in ('find', 'rfind', 'find_first_of', 'find_first_not_of', 'find_last_of', 'find_last_not_of',
+                       'contains', 'starts_with', 'ends_with', 'compare'):
+            unspecified.append(c10.sig(f))
+    chk.require(n_scan >= 30 and n_cmp >= 8, 'only %d searching and %d comparing observers matched a specification' % (
+        n_scan, n_cmp))
+    return n_scan, n_cmp, unspecified
+
+
 def run(chk):
     drv = os.path.join(VERIF, 'drivers', 'fixed_string.cpp')
     extra = ['-DVERIF_THOROUGH'] if chk.tier == 'thorough' else []
@@ -432,6 +559,8 @@ def run(chk):
         % grid)
     chk.assumptions = ['documented domain: insert index <= length, erase index <= length, replace pos < length, '
                        'sub-range positions <= source length, ( const char*, count): count <= strlen',
+                       'searching: needles and character sets are not empty; a backward search starts at a position of '
+                       'the text or at npos ("not set"); compare(): positions address a character',
                        'source arguments do not alias the destination buffer',
                        'memcpy/memmove/memset/std::string( n, ch)/substr have their standard meaning']
     chk.trusted_base = ['clang 14 front end', '/verif/tools/celma-facts.cc', '/verif/cv/bounds.py + lin.py',
@@ -446,6 +575,13 @@ def run(chk):
         r4_swap(chk, prog, eng, L)
         chk.samples.append({'capacity': L, 'mutators_specified': n_spec, 'position_cases': n_cases,
                             'undecided_position_cases': und, 'unspecified': unspecified})
+    chk.rule('R7', 'searching observers: first/last matching candidate position, else npos/false (linear-search proof)',
+             150)
+    chk.rule('R8', 'compare(): sign of memcmp over the common length, else sign of the length difference', 30)
+    for L in grid[:1] if chk.tier == 'quick' else grid:
+        n_scan, n_cmp, unspec = r7_observers(chk, prog, L)
+        chk.samples.append({'capacity': L, 'searching_observers_specified': n_scan, 'compare_overloads': n_cmp,
+                            'observers_without_specification': unspec})
     if eng.unsupported:
         chk.notes.append('constructs evaluated as opaque: %s' % sorted(set(eng.unsupported))[:12])
     chk.level = 'other'
